@@ -381,6 +381,9 @@ fn case(g: &mut Gen, ctx: &mut Ctx) -> CaseResult {
     ctx.classf(format!("len:{}", match b.len() { 0..=23 => "<24", 24..=255 => "<256", 256..=4095 => "<4K", 4096..=65535 => "<64K", _ => ">=64K" }));
     let r = run_all_entry_points(&b, &aad, &payload, ctx);
     // non-trivial: well-formed CBOR that some entry point accepts, or a bomb
+    if ctx.quiet {
+        return r;
+    }
     let bomb = ctx.classes.keys().any(|k| k.starts_with("bomb:") || k == "mode:shape-bomb");
     let accepted = !ctx.classes.contains_key("accepted-by:0");
     if bomb || (accepted && b.len() < 100_000 && read_lenient(&b).is_ok()) {
